@@ -570,4 +570,8 @@ class ClientGenerator:
                 if diff:
                     has_diff = True
                     print("\n".join(diff))
+            else:
+                # A module that would be generated now but is missing from the existing output is a difference too
+                has_diff = True
+                print(f"Missing in existing output: {old_file}")
         return has_diff
